@@ -588,35 +588,6 @@ func Test_clientUpdater_updateService(t *testing.T) {
 		require.NoError(t, err)
 		require.False(t, exists)
 	})
-	t.Run("seed change discards the partial response and starts over from 0", func(t *testing.T) {
-		resetStore(t, storageEngine.GetSQLDatabase())
-		ctrl := gomock.NewController(t)
-		httpClient := client.NewMockHTTPClient(ctrl)
-		updater := newClientUpdater(testDefinitions(), store, alwaysOkVerifier, httpClient)
-		_, err := store.add(testServiceID, vpAlice, testSeed, 5)
-		require.NoError(t, err)
-
-		// the new list holds Alice at 1 and Bob at 6, but only Bob is after our timestamp on the old list
-		httpClient.EXPECT().Get(ctx, serviceDefinition.Endpoint, 5).Return(map[string]vc.VerifiablePresentation{"6": vpBob}, "other", 6, nil)
-		require.NoError(t, updater.updateService(ctx, testDefinitions()[testServiceID]))
-
-		timestamp, err := store.getTimestamp(testServiceID)
-		require.NoError(t, err)
-		assert.Equal(t, 0, timestamp)
-
-		httpClient.EXPECT().Get(ctx, serviceDefinition.Endpoint, 0).Return(map[string]vc.VerifiablePresentation{"1": vpAlice, "6": vpBob}, "other", 6, nil)
-		require.NoError(t, updater.updateService(ctx, testDefinitions()[testServiceID]))
-
-		for _, vp := range []vc.VerifiablePresentation{vpAlice, vpBob} {
-			signer, _ := credential.PresentationSigner(vp)
-			exists, err := store.exists(testServiceID, signer.String(), vp.ID.String())
-			require.NoError(t, err)
-			assert.True(t, exists)
-		}
-		timestamp, err = store.getTimestamp(testServiceID)
-		require.NoError(t, err)
-		assert.Equal(t, 6, timestamp)
-	})
 }
 
 func Test_clientUpdater_update(t *testing.T) {
